@@ -1,6 +1,6 @@
 (* C04 - Episodes end exactly when all work is delivered and report the true makespan. *)
 From Coq Require Import List ZArith Bool.
-From JSL Require Import Base.Res SM.Types SM.Util SM.Handler SM.Step SM.Middleware SM.Inv SM.Example SMP.Decline SMP.Clock SMP.LiftSide SMP.OutputDone SMP.StepInv SMP.Reflect SMP.LiftProv SMP.ProvBatch.
+From JSL Require Import Base.Res SM.Types SM.Util SM.Handler SM.Step SM.Middleware SM.Inv SM.Example SMP.Decline SMP.Clock SMP.LiftSide SMP.OutputDone SMP.StepInv SMP.Reflect SMP.LiftProv SMP.ProvBatch Gen.Kernels Gen.KernelsEq.
 Import ListNotations.
 
 Theorem C04_done_raises :
@@ -37,6 +37,12 @@ Proof.
   - apply andb_true_iff. exact H.
 Qed.
 Print Assumptions C04_flag_means_delivered_and_done.
+
+(* ... and that test is the code's: gen_is_done is REGENERATED from core_utils.is_done / job_type_utils.all_operations_done /
+   buffer_type_utils.get_output_buffers of /repo on every run (harness/translate_kernels.py, fail closed) *)
+Theorem C04_termination_test_is_the_code's : forall i x, gen_is_done i x = all_in_output i x.
+Proof. exact gen_is_done_eq. Qed.
+Print Assumptions C04_termination_test_is_the_code's.
 
 Theorem C04_makespan_is_clock :
   forall e, e_term e = true -> env_makespan e = Some (s_now (r_x (e_res e))).
